@@ -18,7 +18,8 @@ package pokerface
 //@ pred WFG(g) = g != nil && g.gs != nil && g.players != nil
 //@    && (forall i :: 0 <= i && i < len(g.gs.Players) ==>
 //@          g.gs.Players[i] != nil && g.gs.Players[i].Idx == i && in(i, g.players) && g.players[i] != nil
-//@          && g.players[i].idx == i && g.players[i].game == g && g.players[i].state == g.gs.Players[i])
+//@          && g.players[i].idx == i && g.players[i].game == g && g.players[i].state == g.gs.Players[i]
+//@          && g.gs.Players[i].Combination != nil)
 //@    && (forall i, j :: 0 <= i && i < j && j < len(g.gs.Players) ==> g.gs.Players[i] != g.gs.Players[j])
 //@    && g.dealer != nil && g.dealer.game == g && 0 <= g.dealer.idx && g.dealer.idx < len(g.gs.Players)
 //@    && g.players[g.dealer.idx] == g.dealer
@@ -201,7 +202,11 @@ package pokerface
 //@ pred ALLCHIP(g) = forall i :: 0 <= i && i < len(g.gs.Players) ==> CHIP(g.gs.Players[i])
 
 // ENGINE: what every operation needs from the game object between operations
-//@ pred ENGINE(g) = WFG(g) && len(g.gs.Players) >= 2 && TURNOK(g) && STATUSOK(g) && ALLCHIP(g)
+// configuration validity (A8): amounts are never negative
+//@ pred METAOK(g) = g.gs.Meta.Ante >= 0 && g.gs.Meta.Blind.BB >= 0 && g.gs.Meta.Blind.SB >= 0 && g.gs.Meta.Blind.Dealer >= 0
+//@    && g.gs.Meta.HoleCardsCount >= 0 && g.gs.Status.MiniBet >= 0
+
+//@ pred ENGINE(g) = WFG(g) && len(g.gs.Players) >= 2 && TURNOK(g) && STATUSOK(g) && ALLCHIP(g) && METAOK(g)
 
 //@ func (*game).updatePots(g) (err)
 //@   props C01 C16
@@ -209,6 +214,7 @@ package pokerface
 //@   modifies g.gs.Status.Pots, @POTS
 //@   allocs
 //@   ensures err == nil
+//@   ensures forall k :: 0 <= k && k < len(g.gs.Status.Pots) ==> g.gs.Status.Pots[k] != nil
 //@   loop 1 invariant pot.WFLL(ll)
 
 //@ pred TABLE(g) = forall i :: 0 <= i && i < len(g.gs.Players) ==> g.gs.Players[i].Wager <= g.gs.Status.CurrentWager
@@ -222,8 +228,8 @@ package pokerface
 //@ pred ALLIDLE(g) = forall i :: 0 <= i && i < len(g.gs.Players) ==> len(g.gs.Players[i].AllowedActions) == 0
 
 // the state between two operations while a betting round is open / after it closed
-//@ pred ROUNDINV(g) = ENGINE(g) && TABLE(g) && TURN(g) && g.gs.Status.CurrentEvent == "RoundStarted"
-//@ pred CLOSEDINV(g) = ENGINE(g) && TABLE(g) && ALLIDLE(g) && g.gs.Status.CurrentEvent == "RoundClosed"
+//@ pred ROUNDINV(g) = WAITINV(g) && g.gs.Status.CurrentEvent == "RoundStarted"
+//@ pred CLOSEDINV(g) = WAITINV(g) && g.gs.Status.CurrentEvent == "RoundClosed"
 
 //@ pred NOCHIPMOVE() = unchanged(PlayerState.Wager) && unchanged(PlayerState.StackSize) && unchanged(PlayerState.Pot)
 //@    && unchanged(PlayerState.InitialStackSize) && unchanged(PlayerState.Bankroll)
@@ -232,47 +238,168 @@ package pokerface
 //@ pred UNCH() = unchanged(GameState) && unchanged(PlayerState) && unchanged(Action) && unchanged(game) && unchanged(player)
 //@    && unchanged(elems(string))
 
+// --- deck room: enough cards left for everything still to be dealt -----------------------------------
+//@ pred ROUNDVALID(g) = g.gs.Status.Round == "" || g.gs.Status.Round == "preflop" || g.gs.Status.Round == "flop"
+//@    || g.gs.Status.Round == "turn" || g.gs.Status.Round == "river"
+//@ pred DECKROOM(g, need) = 0 <= g.gs.Status.CurrentDeckPosition && g.gs.Status.CurrentDeckPosition + need <= len(g.gs.Meta.Deck)
+// cards still to be dealt once the current street's cards are out
+//@ pred NEEDAFTER(g) = ite(g.gs.Status.Round == "", len(g.gs.Players) * g.gs.Meta.HoleCardsCount + 8,
+//@      ite(g.gs.Status.Round == "preflop", 8, ite(g.gs.Status.Round == "flop", 4, ite(g.gs.Status.Round == "turn", 2, 0))))
+//@ pred DECKOK(g) = ROUNDVALID(g) && DECKROOM(g, NEEDAFTER(g))
+
+//@ pred ZEROBETS(g) = (forall i :: 0 <= i && i < len(g.gs.Players) ==> g.gs.Players[i].Wager == 0)
+//@    && g.gs.Status.CurrentWager == 0 && g.gs.Status.CurrentRoundPot == 0 && g.gs.Status.PreviousRaiseSize == 0
+
+//@ pred ANYBLIND(g) = g.gs.Meta.Blind.BB > 0 || g.gs.Meta.Blind.SB > 0 || g.gs.Meta.Blind.Dealer > 0
+
+// the forced bet of a seat: one per seat — big blind for the bb seat, small blind for the sb seat, dealer blind for a
+// dealer seat that holds neither (C13, reading adopted in DESIGN.md)
+//@ pred DUE(g, ps) = ite(g.gs.Meta.Blind.BB > 0 && hasStr(ps.Positions, "bb"), g.gs.Meta.Blind.BB,
+//@      ite(g.gs.Meta.Blind.SB > 0 && hasStr(ps.Positions, "sb"), g.gs.Meta.Blind.SB,
+//@      ite(g.gs.Meta.Blind.Dealer > 0 && hasStr(ps.Positions, "dealer"), g.gs.Meta.Blind.Dealer, 0)))
+
+// the set of states in which the engine waits for its driver
+//@ pred WAITSET(g) = g.gs.Status.CurrentEvent == "ReadyRequested" || g.gs.Status.CurrentEvent == "AnteRequested"
+//@    || g.gs.Status.CurrentEvent == "BlindsRequested" || g.gs.Status.CurrentEvent == "RoundStarted"
+//@    || g.gs.Status.CurrentEvent == "RoundClosed" || g.gs.Status.CurrentEvent == "GameClosed"
+
+// WAITINV: what holds whenever the engine waits (the invariant every public operation requires and re-establishes)
+//@ pred WAITINV(g) = ENGINE(g) && DECKOK(g) && TABLE(g) && WAITSET(g)
+//@    && (g.gs.Status.CurrentEvent == "RoundStarted" ==> TURN(g) && g.gs.Status.Round != "")
+//@    && (g.gs.Status.CurrentEvent != "RoundStarted" ==> ALLIDLE(g))
+//@    && (g.gs.Status.CurrentEvent == "AnteRequested" ==> g.gs.Status.Round == "" && ZEROBETS(g) && g.gs.Meta.Ante > 0)
+//@    && (g.gs.Status.CurrentEvent == "BlindsRequested" ==> g.gs.Status.Round == "preflop" && ZEROBETS(g) && g.gs.Status.PreviousRaiseSize == 0)
+//@    && (g.gs.Status.CurrentEvent == "ReadyRequested" && g.gs.Status.Round == "" ==> ZEROBETS(g))
+//@    && (g.gs.Status.CurrentEvent == "RoundClosed" ==> g.gs.Status.Round != "")
+
+// the state just before the handler of an event that is emitted while all seats are idle
+//@ pred IDLEPRE(g) = ENGINE(g) && TABLE(g) && ALLIDLE(g)
+
+//@ modset CHAIN = g.gs.Status, g.gs.UpdatedAt, g.gs.Result, g.gs.Meta.Deck, elemsof(g.gs.Meta.Deck), PlayerState.AllowedActions, PlayerState.Acted,
+//@     PlayerState.Pot, PlayerState.Wager, PlayerState.InitialStackSize, PlayerState.DidAction, PlayerState.HoleCards,
+//@     CombinationInfo, @POTS, @SETTLE
+
 //@ func (*game).RequestPlayerAction(g) (err)
 //@   props C04 C05
-//@   requires ENGINE(g) && 0 <= g.gs.Status.CurrentPlayer && OTHERSIDLE(g) && g.gs.Status.CurrentEvent == "RoundStarted"
+//@   requires ENGINE(g) && DECKOK(g) && TABLE(g) && 0 <= g.gs.Status.CurrentPlayer && OTHERSIDLE(g)
+//@   requires g.gs.Status.CurrentEvent == "RoundStarted" && g.gs.Status.Round != ""
 //@   modifies g.gs.Status.CurrentEvent, g.gs.Status.CurrentPlayer, g.gs.Status.Pots, g.gs.UpdatedAt,
 //@            PlayerState.AllowedActions, PlayerState.Acted, @POTS
 //@   allocs elems(string), elems(Player)
-//@   ensures err == nil && TURNOK(g)
+//@   ensures err == nil && WAITINV(g)
 //@   ensures g.gs.Status.CurrentEvent == "RoundStarted" || g.gs.Status.CurrentEvent == "RoundClosed"
-//@   ensures g.gs.Status.CurrentEvent != "RoundClosed" ==> TURN(g) && unchanged(PlayerState.Acted)
+//@   ensures g.gs.Status.CurrentEvent == "RoundStarted" ==> unchanged(PlayerState.Acted)
 //@             && g.gs.Status.CurrentPlayer == ROT(old(g.gs.Status.CurrentPlayer), 1, len(g.gs.Players))
-//@   ensures g.gs.Status.CurrentEvent == "RoundClosed" ==> ALLIDLE(g)
 
 //@ func (*game).EmitEvent(g, event) (err)
-//@   props C04 C05 C06
-//@   requires ENGINE(g)
-//@   requires event == GameEvent_RoundStarted || event == GameEvent_RoundClosed
+//@   props C04 C05 C06 C13 C14
+//@   case event == GameEvent_Started
+//@   case event == GameEvent_Initialized
+//@   case event == GameEvent_Prepared
+//@   case event == GameEvent_AnteRequested
+//@   case event == GameEvent_AntePaid
+//@   case event == GameEvent_BlindsRequested
+//@   case event == GameEvent_BlindsPaid
+//@   case event == GameEvent_ReadyRequested
+//@   case event == GameEvent_Readiness
+//@   case event == GameEvent_PreflopRoundEntered
+//@   case event == GameEvent_FlopRoundEntered
+//@   case event == GameEvent_TurnRoundEntered
+//@   case event == GameEvent_RiverRoundEntered
+//@   case event == GameEvent_RoundInitialized
+//@   case event == GameEvent_RoundPrepared
 //@   case event == GameEvent_RoundStarted
 //@   case event == GameEvent_RoundClosed
-//@   requires event == GameEvent_RoundStarted ==> 0 <= g.gs.Status.CurrentPlayer && OTHERSIDLE(g)
-//@   modifies g.gs.Status.CurrentEvent, g.gs.Status.CurrentPlayer, g.gs.Status.Pots, g.gs.UpdatedAt,
-//@            PlayerState.AllowedActions, PlayerState.Acted, @POTS
-//@   allocs elems(string), elems(Player)
-//@   ensures err == nil && TURNOK(g)
+//@   case event == GameEvent_GameCompleted
+//@   case event == GameEvent_SettlementRequested
+//@   case event == GameEvent_SettlementCompleted
+//@   case event == GameEvent_GameClosed
+//@   requires GameEvent_Started <= event && event <= GameEvent_GameClosed
+//@   requires ENGINE(g) && ROUNDVALID(g)
+//@   requires event == GameEvent_Started ==> ZEROBETS(g) && g.gs.Status.Round == "" && DECKOK(g)
+//@   requires event == GameEvent_Initialized ==> ZEROBETS(g) && g.gs.Status.Round == "" && DECKOK(g)
+//@   requires event == GameEvent_Prepared ==> ZEROBETS(g) && g.gs.Status.Round == "" && DECKOK(g) && ALLIDLE(g)
+//@   requires event == GameEvent_AnteRequested ==> ZEROBETS(g) && g.gs.Status.Round == "" && DECKOK(g) && ALLIDLE(g) && g.gs.Meta.Ante > 0
+//@   requires event == GameEvent_AntePaid ==> g.gs.Status.Round == "" && DECKOK(g) && ALLIDLE(g) && g.gs.Status.CurrentWager == 0
+//@   requires event == GameEvent_BlindsRequested ==> ZEROBETS(g) && g.gs.Status.Round == "preflop" && DECKOK(g) && ALLIDLE(g) && g.gs.Status.PreviousRaiseSize == 0
+//@   requires event == GameEvent_BlindsPaid ==> IDLEPRE(g) && g.gs.Status.Round == "preflop" && DECKOK(g)
+//@   requires event == GameEvent_ReadyRequested ==> IDLEPRE(g) && DECKOK(g) && (g.gs.Status.Round == "" ==> ZEROBETS(g))
+//@   requires event == GameEvent_Readiness ==> IDLEPRE(g) && DECKOK(g) && (g.gs.Status.Round == "" ==> ZEROBETS(g))
+//@   requires event == GameEvent_PreflopRoundEntered ==> ZEROBETS(g) && ALLIDLE(g) && g.gs.Status.Round == "preflop" && g.gs.Status.PreviousRaiseSize == 0
+//@             && DECKROOM(g, len(g.gs.Players) * g.gs.Meta.HoleCardsCount + 8)
+//@   requires event == GameEvent_FlopRoundEntered ==> ZEROBETS(g) && ALLIDLE(g) && g.gs.Status.Round == "flop" && DECKROOM(g, 8)
+//@   requires event == GameEvent_TurnRoundEntered ==> ZEROBETS(g) && ALLIDLE(g) && g.gs.Status.Round == "turn" && DECKROOM(g, 4)
+//@   requires event == GameEvent_RiverRoundEntered ==> ZEROBETS(g) && ALLIDLE(g) && g.gs.Status.Round == "river" && DECKROOM(g, 2)
+//@   requires event == GameEvent_RoundInitialized ==> ZEROBETS(g) && g.gs.Status.Round != "" && DECKOK(g)
+//@             && (g.gs.Status.Round == "preflop" ==> ALLIDLE(g))
+//@   requires event == GameEvent_RoundPrepared ==> IDLEPRE(g) && g.gs.Status.Round != "" && DECKOK(g)
+//@   requires event == GameEvent_RoundStarted ==> TABLE(g) && DECKOK(g) && 0 <= g.gs.Status.CurrentPlayer && OTHERSIDLE(g) && g.gs.Status.Round != ""
+//@   requires event == GameEvent_RoundClosed ==> TABLE(g) && DECKOK(g) && g.gs.Status.Round != ""
+//@   requires event >= GameEvent_GameCompleted ==> ZEROBETS(g) && ALLIDLE(g) && DECKOK(g)
+//@   requires event == GameEvent_SettlementCompleted || event == GameEvent_GameClosed ==> g.gs.Result != nil
+//@   modifies @CHAIN
+//@   allocs elems(string), elems(Player), settlement.Result
+//@   ensures err == nil && WAITINV(g)
 //@   ensures event == GameEvent_RoundStarted ==> g.gs.Status.CurrentEvent == "RoundStarted" || g.gs.Status.CurrentEvent == "RoundClosed"
-//@   ensures event == GameEvent_RoundClosed ==> g.gs.Status.CurrentEvent == "RoundClosed"
-//@   ensures g.gs.Status.CurrentEvent == "RoundStarted" ==> TURN(g) && unchanged(PlayerState.Acted)
+//@   ensures event == GameEvent_RoundStarted && g.gs.Status.CurrentEvent == "RoundStarted" ==> unchanged(PlayerState.Acted)
 //@             && g.gs.Status.CurrentPlayer == ROT(old(g.gs.Status.CurrentPlayer), 1, len(g.gs.Players))
-//@   ensures g.gs.Status.CurrentEvent == "RoundClosed" ==> ALLIDLE(g)
+//@   ensures event == GameEvent_RoundStarted || event == GameEvent_RoundClosed ==> unchanged(PlayerState.Wager) && unchanged(PlayerState.Pot)
+//@             && unchanged(PlayerState.InitialStackSize) && unchanged(PlayerState.DidAction) && unchanged(PlayerState.HoleCards)
+//@             && g.gs.Status.CurrentWager == old(g.gs.Status.CurrentWager) && g.gs.Status.PreviousRaiseSize == old(g.gs.Status.PreviousRaiseSize)
+//@             && g.gs.Status.CurrentRoundPot == old(g.gs.Status.CurrentRoundPot) && g.gs.Status.CurrentRaiser == old(g.gs.Status.CurrentRaiser)
+//@             && g.gs.Status.MaxWager == old(g.gs.Status.MaxWager) && g.gs.Status.Round == old(g.gs.Status.Round)
+//@             && g.gs.Status.LastAction == old(g.gs.Status.LastAction) && unchanged(GameState.Meta)
+//@   ensures event == GameEvent_RoundClosed ==> g.gs.Status.CurrentEvent == "RoundClosed"
+//@   ensures event == GameEvent_Started || event == GameEvent_Initialized || event == GameEvent_ReadyRequested ==> g.gs.Status.CurrentEvent == "ReadyRequested"
+//@   ensures event == GameEvent_AnteRequested ==> g.gs.Status.CurrentEvent == "AnteRequested"
+//@   ensures event == GameEvent_BlindsRequested ==> g.gs.Status.CurrentEvent == "BlindsRequested"
+//@   ensures [C14] len(g.gs.Meta.Deck) == old(len(g.gs.Meta.Deck))
+//@   -- chips only move in the AntePaid handler (wagers are swept into the pot); no other event touches them
+//@   ensures [C01 C13] event != GameEvent_AntePaid ==> unchanged(PlayerState.Pot) && unchanged(PlayerState.Wager) && unchanged(PlayerState.InitialStackSize)
+//@   ensures [C01 C13] event == GameEvent_AntePaid ==> (forall j :: 0 <= j && j < len(g.gs.Players) ==>
+//@             g.gs.Players[j].Pot == old(g.gs.Players[j].Pot) + old(g.gs.Players[j].Wager) && g.gs.Players[j].Wager == 0)
+//@             && g.gs.Status.CurrentWager == 0
+//@   ensures [C13] event != GameEvent_Started && event != GameEvent_AntePaid
+//@             ==> g.gs.Status.CurrentWager == old(g.gs.Status.CurrentWager) && g.gs.Status.PreviousRaiseSize == old(g.gs.Status.PreviousRaiseSize)
+//@                 && g.gs.Status.CurrentRoundPot == old(g.gs.Status.CurrentRoundPot)
+//@   ensures event == GameEvent_BlindsPaid ==> g.gs.Status.CurrentEvent == "ReadyRequested"
+//@   -- blinds are requested before the first betting round whenever any blind is positive
+//@   ensures [C13] ANYBLIND(g) && (event == GameEvent_AntePaid || event == GameEvent_PreflopRoundEntered
+//@             || (event == GameEvent_RoundInitialized && old(g.gs.Status.Round) == "preflop"))
+//@             ==> g.gs.Status.CurrentEvent == "BlindsRequested"
+//@   ensures [C13] ANYBLIND(g) && (event == GameEvent_Prepared || (event == GameEvent_Readiness && old(g.gs.Status.Round) == ""))
+//@             ==> g.gs.Status.CurrentEvent == "BlindsRequested" || g.gs.Status.CurrentEvent == "AnteRequested"
+//@   ensures event >= GameEvent_GameCompleted ==> g.gs.Status.CurrentEvent == "GameClosed" && g.gs.Result != nil
 
 //@ func (*game).Resume(g) (err)
 //@   props C04 C05 C06
-//@   requires ENGINE(g) && 0 <= g.gs.Status.CurrentPlayer && OTHERSIDLE(g)
-//@   requires g.gs.Status.CurrentEvent == "RoundStarted"
+//@   requires ENGINE(g) && DECKOK(g) && TABLE(g) && 0 <= g.gs.Status.CurrentPlayer && OTHERSIDLE(g)
+//@   requires g.gs.Status.CurrentEvent == "RoundStarted" && g.gs.Status.Round != ""
 //@   modifies g.gs.Status.CurrentEvent, g.gs.Status.CurrentPlayer, g.gs.Status.Pots, g.gs.UpdatedAt,
 //@            PlayerState.AllowedActions, PlayerState.Acted, @POTS
 //@   allocs elems(string), elems(Player)
-//@   ensures err == nil && TURNOK(g)
+//@   ensures err == nil && WAITINV(g)
 //@   ensures g.gs.Status.CurrentEvent == "RoundStarted" || g.gs.Status.CurrentEvent == "RoundClosed"
-//@   ensures g.gs.Status.CurrentEvent == "RoundStarted" ==> TURN(g) && unchanged(PlayerState.Acted)
+//@   ensures g.gs.Status.CurrentEvent == "RoundStarted" ==> unchanged(PlayerState.Acted)
 //@             && g.gs.Status.CurrentPlayer == ROT(old(g.gs.Status.CurrentPlayer), 1, len(g.gs.Players))
-//@   ensures g.gs.Status.CurrentEvent == "RoundClosed" ==> ALLIDLE(g)
+
+//@ func (*game).InitializeRound(g) (err)
+//@   inline
+//@   loop 1 invariant rangeindex < len(g.gs.Players) && DECKROOM(g, (len(g.gs.Players) - (rangeindex + 1)) * g.gs.Meta.HoleCardsCount + 8)
+
+// StartRound: opens a betting round (called by the RoundPrepared handler)
+//@ func (*game).StartRound(g) (err)
+//@   props C04 C05
+//@   requires IDLEPRE(g) && ROUNDVALID(g) && g.gs.Status.Round != "" && DECKOK(g) && g.gs.Status.CurrentEvent == "RoundPrepared"
+//@   modifies @CHAIN
+//@   allocs elems(string), elems(Player), settlement.Result
+//@   ensures err == nil && WAITINV(g)
+//@   ensures len(g.gs.Meta.Deck) == old(len(g.gs.Meta.Deck))
+//@   ensures unchanged(PlayerState.Pot) && unchanged(PlayerState.Wager) && unchanged(PlayerState.InitialStackSize)
+//@             && g.gs.Status.CurrentWager == old(g.gs.Status.CurrentWager) && g.gs.Status.PreviousRaiseSize == old(g.gs.Status.PreviousRaiseSize)
+//@             && g.gs.Status.CurrentRoundPot == old(g.gs.Status.CurrentRoundPot)
+//@   loop 1 invariant 0 <= g.gs.Status.CurrentPlayer && g.gs.Status.CurrentPlayer < len(g.gs.Players) && OTHERSIDLE(g)
+
 //@ func (*game).UpdateCombinationOfAllPlayers(g) (err)
 //@   trusted
 //@   props C10
@@ -293,10 +420,7 @@ package pokerface
 //@     p.game.gs.Status.CurrentEvent, p.game.gs.Status.CurrentPlayer, p.game.gs.Status.Pots, p.game.gs.UpdatedAt, @POTS
 
 // what every accepted action leaves behind
-//@ pred AFTERACTION(g) = ENGINE(g) && TABLE(g)
-//@    && (g.gs.Status.CurrentEvent == "RoundStarted" || g.gs.Status.CurrentEvent == "RoundClosed")
-//@    && (g.gs.Status.CurrentEvent == "RoundStarted" ==> TURN(g))
-//@    && (g.gs.Status.CurrentEvent == "RoundClosed" ==> ALLIDLE(g))
+//@ pred AFTERACTION(g) = WAITINV(g) && (g.gs.Status.CurrentEvent == "RoundStarted" || g.gs.Status.CurrentEvent == "RoundClosed")
 
 //@ func (*player).Pass(p) (err)
 //@   props C04 C11
@@ -436,3 +560,189 @@ package pokerface
 //@             ==> len(gs.Players[k].HoleCards) == 0 && gs.Players[k].Combination == nil
 //@   loop 2 invariant forall q *PlayerState :: (forall k :: 0 <= k && k <= rangeindex ==> gs.Players[k] != q)
 //@             ==> q.HoleCards == old(q.HoleCards) && q.Combination == old(q.Combination)
+
+// ---------------------------------------------------------------------------
+// cards (deck.go / game.go), C14
+// ---------------------------------------------------------------------------
+
+//@ func (*game).Deal(g, count) (cards)
+//@   props C14
+//@   requires g != nil && g.gs != nil && 0 <= count
+//@   requires 0 <= g.gs.Status.CurrentDeckPosition && g.gs.Status.CurrentDeckPosition + count <= len(g.gs.Meta.Deck)
+//@   modifies g.gs.Status.CurrentDeckPosition
+//@   allocs elems(string)
+//@   ensures [C14] len(cards) == count && g.gs.Status.CurrentDeckPosition == old(g.gs.Status.CurrentDeckPosition) + count
+//@   ensures [C14] forall k :: 0 <= k && k < count ==> cards[k] == g.gs.Meta.Deck[old(g.gs.Status.CurrentDeckPosition) + k]
+//@   loop 1 invariant old(g.gs.Status.CurrentDeckPosition) <= i && i <= old(g.gs.Status.CurrentDeckPosition) + count
+//@   loop 1 invariant g.gs.Status.CurrentDeckPosition == i && len(cards) == i - old(g.gs.Status.CurrentDeckPosition)
+//@   loop 1 invariant forall k :: 0 <= k && k < len(cards) ==> cards[k] == g.gs.Meta.Deck[old(g.gs.Status.CurrentDeckPosition) + k]
+
+//@ func (*game).Burn(g, count) (err)
+//@   props C14
+//@   requires g != nil && g.gs != nil && 0 <= count
+//@   requires 0 <= g.gs.Status.CurrentDeckPosition && g.gs.Status.CurrentDeckPosition + count <= len(g.gs.Meta.Deck)
+//@   modifies g.gs.Status.CurrentDeckPosition, g.gs.Status.Burned
+//@   allocs elems(string)
+//@   ensures err == nil
+//@   ensures [C14] len(g.gs.Status.Burned) == old(len(g.gs.Status.Burned)) + count
+//@             && g.gs.Status.CurrentDeckPosition == old(g.gs.Status.CurrentDeckPosition) + count
+//@   ensures [C14] forall k :: 0 <= k && k < old(len(g.gs.Status.Burned)) ==> g.gs.Status.Burned[k] == old(g.gs.Status.Burned[k])
+//@   ensures [C14] forall k :: 0 <= k && k < count
+//@             ==> g.gs.Status.Burned[old(len(g.gs.Status.Burned)) + k] == g.gs.Meta.Deck[old(g.gs.Status.CurrentDeckPosition) + k]
+
+// ---------------------------------------------------------------------------
+// round bookkeeping
+// ---------------------------------------------------------------------------
+
+//@ func (*game).ResetAllPlayerStatus(g) (err)
+//@   props C01 C13
+//@   requires WFG(g)
+//@   modifies PlayerState.AllowedActions, PlayerState.Pot, PlayerState.Wager, PlayerState.InitialStackSize, PlayerState.DidAction
+//@   allocs elems(Player), elems(string)
+//@   ensures err == nil
+//@   ensures [C01] forall j :: 0 <= j && j < len(g.gs.Players) ==>
+//@             g.gs.Players[j].Pot == old(g.gs.Players[j].Pot) + old(g.gs.Players[j].Wager) && g.gs.Players[j].Wager == 0
+//@             && g.gs.Players[j].InitialStackSize == g.gs.Players[j].StackSize && len(g.gs.Players[j].AllowedActions) == 0
+//@   loop 1 invariant forall j :: 0 <= j && j < len(g.gs.Players) && DIST(g.dealer.idx, j, len(g.gs.Players)) <= rangeindex ==>
+//@             g.gs.Players[j].Pot == old(g.gs.Players[j].Pot) + old(g.gs.Players[j].Wager) && g.gs.Players[j].Wager == 0
+//@             && g.gs.Players[j].InitialStackSize == g.gs.Players[j].StackSize && len(g.gs.Players[j].AllowedActions) == 0
+//@   loop 1 invariant forall j :: 0 <= j && j < len(g.gs.Players) && DIST(g.dealer.idx, j, len(g.gs.Players)) > rangeindex ==>
+//@             g.gs.Players[j].Pot == old(g.gs.Players[j].Pot) && g.gs.Players[j].Wager == old(g.gs.Players[j].Wager)
+
+//@ func (*game).ResetRoundStatus(g) (err)
+//@   props C01 C13
+//@   requires WFG(g)
+//@   modifies g.gs.Status.PreviousRaiseSize, g.gs.Status.MaxWager, g.gs.Status.CurrentRoundPot, g.gs.Status.CurrentWager,
+//@            g.gs.Status.CurrentRaiser, g.gs.Status.CurrentPlayer
+//@   ensures err == nil
+//@   ensures g.gs.Status.PreviousRaiseSize == 0 && g.gs.Status.MaxWager == 0 && g.gs.Status.CurrentRoundPot == 0
+//@             && g.gs.Status.CurrentWager == 0 && g.gs.Status.CurrentRaiser == g.dealer.idx && g.gs.Status.CurrentPlayer == g.dealer.idx
+
+// ---------------------------------------------------------------------------
+// public table operations (action.go, game.go)
+// ---------------------------------------------------------------------------
+
+//@ modset OPS = g.gs.Status, g.gs.UpdatedAt, g.gs.Result, g.gs.Meta.Deck, elemsof(g.gs.Meta.Deck), PlayerState.AllowedActions, PlayerState.Acted,
+//@     PlayerState.Pot, PlayerState.Wager, PlayerState.StackSize, PlayerState.InitialStackSize, PlayerState.DidAction, PlayerState.HoleCards,
+//@     PlayerState.VPIP, CombinationInfo, Action, @POTS, @SETTLE
+
+//@ func (*game).ReadyForAll(g) (err)
+//@   props C04 C06
+//@   requires WAITINV(g)
+//@   modifies @OPS
+//@   allocs elems(string), elems(Player), settlement.Result, Action
+//@   ensures [C04] old(g.gs.Status.CurrentEvent) != "ReadyRequested" ==> err == ErrInvalidAction && UNCH()
+//@   ensures [C06] old(g.gs.Status.CurrentEvent) == "ReadyRequested" ==> err == nil && WAITINV(g)
+
+//@ func (*game).Next(g) (err)
+//@   props C04 C06 C14
+//@   requires WAITINV(g)
+//@   modifies @OPS
+//@   allocs elems(string), elems(Player), settlement.Result, Action
+//@   ensures [C04] old(g.gs.Status.CurrentEvent) != "RoundClosed" ==> err == ErrNotClosedRound && UNCH()
+//@   ensures [C06] old(g.gs.Status.CurrentEvent) == "RoundClosed" ==> err == nil && WAITINV(g)
+
+// what NewGame/ApplyOptions hand to Start: structure without the checks Start itself performs
+//@ pred WFG0(g) = g != nil && g.gs != nil && g.players != nil
+//@    && (forall i :: 0 <= i && i < len(g.gs.Players) ==>
+//@          g.gs.Players[i] != nil && g.gs.Players[i].Idx == i && in(i, g.players) && g.players[i] != nil
+//@          && g.players[i].idx == i && g.players[i].game == g && g.players[i].state == g.gs.Players[i]
+//@          && g.gs.Players[i].Combination != nil)
+//@    && (forall i, j :: 0 <= i && i < j && j < len(g.gs.Players) ==> g.gs.Players[i] != g.gs.Players[j])
+//@    && (g.dealer != nil ==> g.dealer.game == g && 0 <= g.dealer.idx && g.dealer.idx < len(g.gs.Players) && g.players[g.dealer.idx] == g.dealer)
+
+//@ pred FRESHPLAYERS(g) = forall i :: 0 <= i && i < len(g.gs.Players) ==>
+//@      g.gs.Players[i].Wager == 0 && g.gs.Players[i].Pot == 0 && g.gs.Players[i].StackSize == g.gs.Players[i].Bankroll
+//@      && g.gs.Players[i].InitialStackSize == g.gs.Players[i].Bankroll
+
+//@ func (*game).Start(g) (err)
+//@   props C06 C04 C14
+//@   requires WFG0(g) && FRESHPLAYERS(g)
+//@   requires g.gs.Status.Round == "" && g.gs.Status.CurrentDeckPosition == 0 && g.gs.Status.CurrentPlayer == 0 && g.gs.Status.CurrentWager == 0
+//@             && g.gs.Status.CurrentRoundPot == 0 && g.gs.Status.PreviousRaiseSize == 0
+//@   -- configuration validity (A8): amounts and the hole-card count are not negative
+//@   requires g.gs.Meta.Ante >= 0 && g.gs.Meta.Blind.BB >= 0 && g.gs.Meta.Blind.SB >= 0 && g.gs.Meta.Blind.Dealer >= 0 && g.gs.Meta.HoleCardsCount >= 0
+//@             && g.gs.Status.MiniBet >= 0
+//@   modifies @OPS
+//@   allocs elems(string), elems(Player), settlement.Result, Action, elems(*pot.Pot)
+//@   ensures [C06] len(g.gs.Players) < 2 ==> err == ErrInsufficientNumberOfPlayers
+//@   ensures [C06] len(g.gs.Players) >= 2 && g.dealer == nil ==> err == ErrNoDealer
+//@   ensures [C06] err == nil ==> len(g.gs.Players) >= 2 && g.dealer != nil && len(g.gs.Meta.Deck) > 0
+//@             && (forall i :: 0 <= i && i < len(g.gs.Players) ==> g.gs.Players[i].Bankroll > 0)
+//@   ensures [C06] err == nil ==> WAITINV(g) && g.gs.Status.CurrentEvent == "ReadyRequested"
+//@   ensures [C06] err != nil ==> unchanged(PlayerState) && unchanged(GameState.Meta)
+//@   loop 1 invariant forall k :: 0 <= k && k <= rangeindex ==> g.gs.Players[k].Bankroll > 0
+
+// ---------------------------------------------------------------------------
+// antes and blinds (C13)
+// ---------------------------------------------------------------------------
+
+//@ func (*player).PayAnte(p) (err)
+//@   props C13 C01
+//@   requires WFP(p) && CHIP(p.state) && STATUSOK(p.game) && p.game.gs.Meta.Ante >= 0
+//@   modifies p.state.Wager, p.state.StackSize, p.state.DidAction, p.game.gs.Status.CurrentRoundPot, p.game.gs.Status.MaxWager,
+//@            p.game.gs.Status.LastAction, Action
+//@   allocs Action
+//@   ensures (p.game.gs.Meta.Ante == 0 || p.game.gs.Status.CurrentEvent != "AnteRequested" || old(p.state.Wager) > 0)
+//@             ==> err == ErrInvalidAction && p.state.Wager == old(p.state.Wager) && p.state.StackSize == old(p.state.StackSize)
+//@                 && p.game.gs.Status.CurrentRoundPot == old(p.game.gs.Status.CurrentRoundPot)
+//@   ensures !(p.game.gs.Meta.Ante == 0 || p.game.gs.Status.CurrentEvent != "AnteRequested" || old(p.state.Wager) > 0)
+//@             ==> err == nil && p.state.Wager == old(p.state.Wager) + min(p.game.gs.Meta.Ante, old(p.state.StackSize)) && CHIP(p.state)
+//@                 && p.game.gs.Status.CurrentRoundPot == old(p.game.gs.Status.CurrentRoundPot) + p.state.Wager - old(p.state.Wager)
+
+//@ func (*game).PayAnte(g) (err)
+//@   props C13 C04 C06 C01
+//@   requires WAITINV(g)
+//@   modifies @OPS
+//@   allocs elems(string), elems(Player), settlement.Result, Action
+//@   ensures [C04] old(g.gs.Status.CurrentEvent) != "AnteRequested" ==> err == ErrInvalidAction && UNCH()
+//@   ensures [C06] old(g.gs.Status.CurrentEvent) == "AnteRequested" ==> err == nil && WAITINV(g)
+//@   ensures [C13] old(g.gs.Status.CurrentEvent) == "AnteRequested" ==> (forall j :: 0 <= j && j < len(g.gs.Players) ==>
+//@             g.gs.Players[j].Pot == old(g.gs.Players[j].Pot) + min(g.gs.Meta.Ante, old(g.gs.Players[j].StackSize))
+//@             && g.gs.Players[j].Wager == 0) && g.gs.Status.CurrentWager == 0
+//@   ensures [C13] old(g.gs.Status.CurrentEvent) == "AnteRequested" && ANYBLIND(g) ==> g.gs.Status.CurrentEvent == "BlindsRequested"
+//@   loop 1 invariant forall j :: 0 <= j && j < len(g.gs.Players) && DIST(g.dealer.idx, j, len(g.gs.Players)) <= rangeindex ==>
+//@             g.gs.Players[j].Wager == min(g.gs.Meta.Ante, old(g.gs.Players[j].StackSize)) && CHIP(g.gs.Players[j])
+//@             && g.gs.Players[j].Pot == old(g.gs.Players[j].Pot)
+//@   loop 1 invariant forall j :: 0 <= j && j < len(g.gs.Players) && DIST(g.dealer.idx, j, len(g.gs.Players)) > rangeindex ==>
+//@             g.gs.Players[j].Wager == 0 && CHIP(g.gs.Players[j]) && g.gs.Players[j].StackSize == old(g.gs.Players[j].StackSize)
+//@             && g.gs.Players[j].Pot == old(g.gs.Players[j].Pot)
+//@   loop 1 invariant g.gs.Status.CurrentWager == 0 && g.gs.Status.PreviousRaiseSize == 0
+
+//@ func (*player).PayBlinds(p) (err)
+//@   props C13 C01
+//@   requires WFP(p) && CHIP(p.state) && STATUSOK(p.game) && METAOK(p.game)
+//@   modifies p.state.Wager, p.state.StackSize, p.state.DidAction, p.state.VPIP, PlayerState.Acted,
+//@            p.game.gs.Status.CurrentRoundPot, p.game.gs.Status.MaxWager, p.game.gs.Status.CurrentWager, p.game.gs.Status.CurrentRaiser,
+//@            p.game.gs.Status.LastAction, Action
+//@   allocs Action
+//@   ensures p.game.gs.Status.CurrentEvent != "BlindsRequested" ==> err == ErrInvalidAction && p.state.Wager == old(p.state.Wager)
+//@             && p.state.StackSize == old(p.state.StackSize) && p.game.gs.Status.CurrentWager == old(p.game.gs.Status.CurrentWager)
+//@   ensures [C13] p.game.gs.Status.CurrentEvent == "BlindsRequested" ==> err == nil && CHIP(p.state) && STATUSOK(p.game)
+//@             && p.state.Wager == old(p.state.Wager) + min(DUE(p.game, p.state), old(p.state.StackSize))
+//@             && p.game.gs.Status.CurrentWager == max(old(p.game.gs.Status.CurrentWager), p.state.Wager)
+//@             && p.game.gs.Status.CurrentRoundPot == old(p.game.gs.Status.CurrentRoundPot) + p.state.Wager - old(p.state.Wager)
+
+//@ func (*game).PayBlinds(g) (err)
+//@   props C13 C04 C06 C01
+//@   requires WAITINV(g)
+//@   modifies @OPS
+//@   allocs elems(string), elems(Player), settlement.Result, Action
+//@   ensures [C04] old(g.gs.Status.CurrentEvent) != "BlindsRequested" ==> err == ErrInvalidAction && UNCH()
+//@   ensures [C06] old(g.gs.Status.CurrentEvent) == "BlindsRequested" ==> err == nil && WAITINV(g) && g.gs.Status.CurrentEvent == "ReadyRequested"
+//@   -- every seat has posted exactly its forced bet, capped at its stack; nobody else has posted anything
+//@   ensures [C13] old(g.gs.Status.CurrentEvent) == "BlindsRequested" ==> (forall j :: 0 <= j && j < len(g.gs.Players) ==>
+//@             g.gs.Players[j].Wager == min(old(DUE(g, g.gs.Players[j])), old(g.gs.Players[j].StackSize))
+//@             && g.gs.Players[j].Pot == old(g.gs.Players[j].Pot))
+//@   -- the wager to match is the largest blind actually posted; the big blind is the minimum raise
+//@   ensures [C13] old(g.gs.Status.CurrentEvent) == "BlindsRequested" ==> TABLE(g)
+//@             && (g.gs.Status.CurrentWager > 0 ==> (exists j :: 0 <= j && j < len(g.gs.Players) && g.gs.Players[j].Wager == g.gs.Status.CurrentWager))
+//@   ensures [C13] old(g.gs.Status.CurrentEvent) == "BlindsRequested" && g.gs.Meta.Blind.BB > 0 ==> g.gs.Status.PreviousRaiseSize == g.gs.Meta.Blind.BB
+//@   loop 1 invariant forall j :: 0 <= j && j < len(g.gs.Players) && DIST(g.dealer.idx, j, len(g.gs.Players)) <= rangeindex ==>
+//@             g.gs.Players[j].Wager == min(old(DUE(g, g.gs.Players[j])), old(g.gs.Players[j].StackSize)) && CHIP(g.gs.Players[j])
+//@             && g.gs.Players[j].Pot == old(g.gs.Players[j].Pot)
+//@   loop 1 invariant forall j :: 0 <= j && j < len(g.gs.Players) && DIST(g.dealer.idx, j, len(g.gs.Players)) > rangeindex ==>
+//@             g.gs.Players[j].Wager == 0 && CHIP(g.gs.Players[j]) && g.gs.Players[j].StackSize == old(g.gs.Players[j].StackSize)
+//@             && g.gs.Players[j].Pot == old(g.gs.Players[j].Pot)
+//@   loop 1 invariant STATUSOK(g) && TABLE(g)
+//@             && (g.gs.Status.CurrentWager > 0 ==> (exists j :: 0 <= j && j < len(g.gs.Players) && g.gs.Players[j].Wager == g.gs.Status.CurrentWager))
